@@ -24,6 +24,14 @@ CHECKS = {
         text='Same pipeline as C01; clauses C02_TimeExact, C02_NumberExact, C02_Gapless, C02_SourceAligned are evaluated by TLC on every '
              'served segment (tfdt, mfhd sequence number, summed sample durations, payload identity, position modulo the reference duration).',
         note=LW_NOTE + ' Known finding C02-drift-duration is matched by a narrow signature (known_findings.json).', design='4 C02'),
+    'C06': dict(
+        technique='TLA+ spec LiveWindow.tla static mode: TLC over all layouts (C06 invariants) + pure-layer replay + every static '
+                  'manifest walked end to end over HTTP (numbers, timeline entries, SegmentList ranges, one past the end), TLC trace validation',
+        text='TLC checks the static-mode model (timeline = stored track, every number/time served, next refused) for every layout; '
+             'the same layouts run on the real code; for every vod/odvod template and option vector the real manifest is walked end '
+             'to end, every enumerated segment and byte range fetched and compared with an independent scan of the stored file, and '
+             'TLC evaluates the C06 clauses on each walk.',
+        note=LW_NOTE + ' N is read as the stored segment count; fixture streams bbb and tears.', design='4 C06'),
     'C20': dict(
         technique='TLA+ spec BufferedReader.tla: TLC exhaustive refinement check (implementation-shaped cache model vs '
                   'in-memory stream) + every model edge replayed on the real class + TLC trace validation of recorded calls',
